@@ -304,6 +304,16 @@ def run(rep):
                 rule_scev(rep, t, m)
                 rule_provision(rep, t, m)
         rep.guarded("R-C06-setter", one)
+    # "the requested ratio" of the relative setter is original·x: the setter must store exactly what set_resample_ratio(original·x) stores (shared with C12)
+    import C12
+    for t in ASYNC:
+        def rel(rep, t=t):
+            sh, o, m_ = C12.rule_abs(rep, t)
+            C12.rule_rel(rep, t, sh, o, m_)
+        rep.guarded("R-C12-abs", rel)
+    rep.floor("R-C12-abs", 4 * 7)
+    rep.floor("R-C12-rel", 4)
+    rep.clause("R-C12-abs / R-C12-rel", "the ratio that takes effect is the requested one: the absolute setter stores its argument, the relative setter stores original·x (shared with C12)")
     rep.floor("R-C06-setter", 1 + 4 * 7)
     rep.floor("R-C06-step", 4 * 3 + 18)
     rep.floor("R-C06-scev", 9)
